@@ -397,3 +397,74 @@ def r8_parallel_wiring(ctx):
 
 
 RULES += [r8_parallel_wiring]
+
+
+def r9_recursive_components(ctx):
+    ctx.rule("C10.r9", "top-down phase: a component is recursive when it has several members OR its single member has a self-edge IN THE "
+             "CALL GRAPH (the SCC graph drops the edges inside a component, so it never shows a self-edge); every member of a "
+             "recursive component - the root included - is analysed from a value that covers the call-context table entry "
+             "(which holds the top context inserted for recursive components)", floor=3)
+    fs = ctx.db.fns(BU, pk=ANA + "::run")
+    if not ctx.need(fs, "bottom_up_inter_analyzer::run"):
+        return
+    for fn in fs:
+        body = fn["body"]
+        d = local_decls(body)
+        rec = [dd for dd in d.values() if dd.get("n") == "is_recursive" and "i" in dd]
+        if not rec:
+            ctx.bad("bottom_up_inter_analyzer::run no longer computes is_recursive", fn, body, sig="no-is-recursive")
+            continue
+        init = rec[0]["i"]
+        # (a) several members
+        size_cmp = [x for x in walk(init) if cmp_parts(x) and cmp_parts(x)[0] in (">", ">=", "!=") and
+                    any(is_call(y, name="size") for y in walk(x))]
+        # (b) self edge looked up in the call graph
+        succs = [x for x in walk(init) if is_call(x, name="succs") and x.get("o") is not None]
+        def _ty(x):
+            o = deref(x["o"]) or {}
+            return (o.get("TC") or "") + " " + (o.get("T") or "")
+        cg_succs = [x for x in succs if is_field(x["o"], "m_cg") or ("call_graph" in _ty(x) and "scc_graph" not in _ty(x))]
+        other = [x for x in succs if x not in cg_succs]
+        selfcmp = [x for lam in walk(init) if lam.get("k") == "lambda" for x in walk(lam.get("b"))
+                   if cmp_parts(x) and cmp_parts(x)[0] == "==" and any(is_call(y, name=("dest", "Dest")) for y in walk(x))]
+        if size_cmp and cg_succs and not other and selfcmp:
+            ctx.ok("is_recursive = several members || self-edge in the call graph", fn, init)
+        else:
+            why = []
+            if not size_cmp:
+                why.append("no `members.size() > 1` test")
+            if other or not cg_succs:
+                why.append("the self-edge is looked for in `%s`, not in the call graph m_cg (the SCC graph has no edges inside a "
+                           "component)" % (src(other[0]["o"]) if other else "nothing"))
+            if not selfcmp:
+                why.append("no `n == e.dest()` test")
+            ctx.bad("bottom_up_inter_analyzer::run: is_recursive is wrong (%s): a directly self-recursive function is then analysed "
+                    "only under the contexts of its external callers and the states of its recursive activations are missing" %
+                    "; ".join(why), fn, init, sig="is-recursive:%s" % ("scc-graph" if (other or not cg_succs) else "shape"))
+        # (c) the value every member is analysed from
+        g = paths.guards(body)
+        rid_ = [dd["id"] for dd in rec][0]
+        for c, ps in nodes_not_in_log(body, lambda x: is_call(x, name="run_forward")):
+            a0 = strip_move(c["a"][0]) if c.get("a") else None
+            if not (isinstance(a0, dict) and a0.get("k") == "ref" and a0.get("rk") == "local"):
+                ctx.skipped("C10.r9|run_forward argument", rid="C10.r9")
+                continue
+            vid = a0["id"]
+            ws = writes_to(body, vid)
+            # every write that does not read the call-context table must be followed, under is_recursive, by one that does
+            from_tbl = [w for w in ws if any(is_call(y, name="get_call_ctx") for y in walk(w))]
+
+            def rec_atom(x, rid_=rid_):
+                x = strip(x)
+                return 1 if (isinstance(x, dict) and x.get("k") == "ref" and x.get("id") == rid_) else 0
+            covered_root = any(guard_truth(g.get(id(w), ()), rec_atom, body) is True for w in from_tbl)
+            uncond = [w for w in from_tbl if guard_truth(g.get(id(w), ()), rec_atom, body) is None]
+            if covered_root and uncond:
+                ctx.ok("every member of a recursive component starts from a value covering its call-context entry", fn, c)
+            else:
+                ctx.bad("bottom_up_inter_analyzer::run analyses the root of the top-down phase from the initial states only, also when "
+                        "it is recursive: it is entered through its recursive calls as well, whose contexts (the top context inserted "
+                        "for recursive components) are never used for it", fn, c, sig="recursive-root-ignores-contexts")
+
+
+RULES += [r9_recursive_components]
